@@ -8,7 +8,7 @@
 //!   ts-roundtrip  unix  nanos  off            | norepr | dt(hex|!) back  http back  epoch back
 //!   copysrc-parse header(hex)                 | res  fmt(hex|-)            res = ok:BUCKET:KEY:VER | err:Kind
 //!   copysrc-roundtrip bucket(hex) key(hex) ver(-|+hex) | text(hex)  reparse(res)
-//!   ctype         text(hex)                   | ok:ESSENCE:PARAMS:TEXT | err
+//!   ctype         text(hex)                   | res  reparse-of-written-text     res = ok:ESSENCE:PARAMS:TEXT | err
 //! an empty byte string is written `.`
 use s3s::dto::{ContentType, CopySource, Range, Timestamp, TimestampFormat};
 use s3vh::{Rng, component_main, hex, unhex};
@@ -178,17 +178,19 @@ fn gen_range(rng: &mut Rng, n: u64, emit: &mut dyn FnMut(Vec<String>)) {
         } else {
             rng.pick(&["Bytes=", "BYTES=", "bytes =", "byte=", "", "bytes==", " bytes=", "bytes", "bytes:", "items="])
         };
-        let body = match rng.below(10) {
+        let body = match rng.below(14) {
             0..=2 => format!("{}-{}", digit_string(rng), digit_string(rng)),
             3 => format!("{}-", digit_string(rng)),
             4 => format!("-{}", digit_string(rng)),
-            5 => {
+            5..=7 => {
                 let f = pick_u64(rng) >> 1;
                 format!("{}-{}", f, f.saturating_add(pick_u64(rng) >> rng.below(50)))
             }
-            6 => format!("{}{}{}", digit_string(rng), rng.pick(&["", "--", " - ", ",", "=", "- ", " -"]), digit_string(rng)),
-            7 => format!("{}-{},{}-{}", rng.below(10), rng.below(100), rng.below(10), rng.below(100)),
-            8 => format!("{}-{}{}", rng.below(100), rng.below(1000), rng.pick(&[";", " ", ",", "-", "\t", "\u{e9}"])),
+            8 => format!("{}-", pick_u64(rng)),
+            9 => format!("-{}", pick_u64(rng)),
+            10 => format!("{}{}{}", digit_string(rng), rng.pick(&["", "--", " - ", ",", "=", "- ", " -"]), digit_string(rng)),
+            11 => format!("{}-{},{}-{}", rng.below(10), rng.below(100), rng.below(10), rng.below(100)),
+            12 => format!("{}-{}{}", rng.below(100), rng.below(1000), rng.pick(&[";", " ", ",", "-", "\t", "\u{e9}"])),
             _ => rng.pick(&["-", "", "--", "-0", "-00", "0-0", "0", "1-0", "-1-", "0--1", "- 5", "5 -", "５-６"]).to_owned(),
         };
         emit(vec!["range-parse".into(), hx(format!("{prefix}{body}").as_bytes())]);
@@ -364,7 +366,7 @@ fn mutate(rng: &mut Rng, s: &str) -> Vec<u8> {
     String::from_utf8_lossy(&b).into_owned().into_bytes()
 }
 
-fn gen_ts(rng: &mut Rng, n: u64, emit: &mut dyn FnMut(Vec<String>)) {
+fn gen_ts(rng: &mut Rng, n: u64, tier: &str, emit: &mut dyn FnMut(Vec<String>)) {
     // fixed edge texts
     for (f, t) in [
         ("DateTime", "1985-04-12T23:20:50.520Z"),
@@ -483,6 +485,15 @@ fn gen_ts(rng: &mut Rng, n: u64, emit: &mut dyn FnMut(Vec<String>)) {
             for &ns in &[0u32, 1_000_000, 999_000_000, 123_000_000, 999_999_999, 1] {
                 emit(vec!["ts-roundtrip".into(), u.to_string(), ns.to_string(), off.to_string()]);
             }
+        }
+    }
+    // the first 64 seconds after the epoch at every millisecond: where `secs as f64 + ms/1e3` could round twice
+    let step = if tier == "thorough" { 1 } else { 13 };
+    for secs in 0..64i64 {
+        let mut ms = (secs % step) as u32;
+        while ms < 1000 {
+            emit(vec!["ts-roundtrip".into(), secs.to_string(), (ms * 1_000_000).to_string(), "0".into()]);
+            ms += step as u32;
         }
     }
     for _ in 0..n {
@@ -792,22 +803,23 @@ fn gen_ctype(rng: &mut Rng, n: u64, emit: &mut dyn FnMut(Vec<String>)) {
     let vals = ["utf-8", "UTF-8", "1", "\"quoted\"", "\"a b\"", "\"a;b\"", "\"\"", "x.y", "\"a\\\\b\""];
     for _ in 0..n {
         let mut s = format!("{}/{}", rng.pick(&toks), rng.pick(&toks));
+        let quoted = rng.chance(1, 4);
         for _ in 0..rng.below(3) {
-            s.push_str(rng.pick(&[";", "; ", " ;", ";  ", " ; "]));
-            s.push_str(rng.pick(&["charset", "boundary", "a", "Q", "x-y"]));
+            s.push_str(if quoted { rng.pick(&[";", "; ", " ;", ";  ", " ; "]) } else { rng.pick(&[";", "; ", ";  "]) });
+            s.push_str(rng.pick(&["charset", "boundary", "a", "Q", "x-y", "CHARSET"]));
             s.push('=');
-            s.push_str(rng.pick(&vals));
+            s.push_str(if quoted { rng.pick(&vals) } else { rng.pick(&["utf-8", "UTF-8", "1", "x.y", "Abc", "----x"]) });
         }
-        let b = if rng.chance(1, 4) { mutate(rng, &s) } else { s.into_bytes() };
+        let b = if rng.chance(1, 5) { mutate(rng, &s) } else { s.into_bytes() };
         emit(vec!["ctype".into(), hx(&b)]);
     }
 }
 
-fn generate(rng: &mut Rng, n: u64, _tier: &str, emit: &mut dyn FnMut(Vec<String>)) {
+fn generate(rng: &mut Rng, n: u64, tier: &str, emit: &mut dyn FnMut(Vec<String>)) {
     // n = number of random rounds per family (each round emits several lines)
     let r = (n / 16).max(1);
     gen_range(rng, r * 3, emit);
-    gen_ts(rng, r, emit);
+    gen_ts(rng, r, tier, emit);
     gen_cs(rng, r, emit);
     gen_ctype(rng, (r / 4).max(1), emit);
 }
@@ -891,19 +903,21 @@ fn evaluate(f: &[&str]) -> Vec<String> {
             vec![hx(t.as_bytes()), cs_res(&CopySource::parse(&t))]
         }
         "ctype" => {
+            fn show(m: &ContentType) -> String {
+                let params: Vec<String> =
+                    m.params().map(|(k, v)| format!("{}={}", hx(k.as_str().as_bytes()), hx(v.as_str().as_bytes()))).collect();
+                format!(
+                    "ok:{}:{}:{}",
+                    hx(m.essence_str().as_bytes()),
+                    if params.is_empty() { ".".to_owned() } else { params.join(",") },
+                    hx(m.as_ref().as_bytes())
+                )
+            }
             let s = String::from_utf8(unhx(f[1])).expect("utf8");
             match s.parse::<ContentType>() {
-                Err(_) => vec!["err".to_owned()],
-                Ok(m) => {
-                    let params: Vec<String> =
-                        m.params().map(|(k, v)| format!("{}={}", hex(k.as_str().as_bytes()), hx(v.as_str().as_bytes()))).collect();
-                    vec![format!(
-                        "ok:{}:{}:{}",
-                        hx(m.essence_str().as_bytes()),
-                        if params.is_empty() { ".".to_owned() } else { params.join(",") },
-                        hx(m.as_ref().as_bytes())
-                    )]
-                }
+                Err(_) => vec!["err".to_owned(), "-".to_owned()],
+                // what `try_into_header_value` writes is `as_ref()`; parse it again
+                Ok(m) => vec![show(&m), m.as_ref().parse::<ContentType>().map_or("err".to_owned(), |m2| show(&m2))],
             }
         }
         _ => vec!["badkind".to_owned()],
